@@ -7,7 +7,7 @@ S=$1
 export GOFLAGS=-mod=mod GOPROXY=off GOSUMDB=off GOTOOLCHAIN=local GOWORK=off
 GO=go1.26.8
 REPO=${VERIF_REPO:-/repo}
-V=/verif
+V=$(cd "$(dirname "$(readlink -f "$0")")" && pwd)
 fail() { echo "BUILD-FAILURE: $*" >&2; exit 2; }
 if [ ! -x $V/bin/instrument ] || [ $V/ws/tools/instrument/main.go -nt $V/bin/instrument ]; then
   (cd $V/ws && $GO build -o $V/bin/instrument ./tools/instrument) || fail "instrumenter does not build"
